@@ -34,10 +34,14 @@ func Cps(s string) []any {
 	return out
 }
 
-// Project maps a real object to the canonical value JSON (depth-limited).
+// Project maps a real object to the canonical value JSON (depth-limited, as Lang!Proj: a CONTAINER at depth 0 is
+// "deep", a scalar is shown at any depth; cyclic values reach the limit).
 func Project(o object.Object, d int) any {
-	if d == 0 {
-		return N{"t": "deep"}
+	switch o.(type) {
+	case *object.List, *object.Map, *object.Set:
+		if d == 0 {
+			return N{"t": "deep"}
+		}
 	}
 	switch o := o.(type) {
 	case nil:
@@ -125,7 +129,7 @@ func Eval(src string, eo EvalOpts) (obs N) {
 		}
 		return N{"k": "raise", "v": ErrKind(err), "msg": err.Error(), "out": out}
 	}
-	return N{"k": "ok", "v": Project(res, 8), "out": out}
+	return N{"k": "ok", "v": Project(res, 7), "out": out}
 }
 
 // EvalRoute runs src through one of the other host entry points; the outcome must be the one Eval gives.
@@ -209,7 +213,7 @@ func EvalRoute(src string, route string) (obs N) {
 		}
 		return N{"k": "raise", "v": ErrKind(err), "msg": err.Error(), "out": out, "route": route}
 	}
-	return N{"k": "ok", "v": Project(res, 8), "out": out, "route": route}
+	return N{"k": "ok", "v": Project(res, 7), "out": out, "route": route}
 }
 
 // ---------------------------------------------------------------------------
